@@ -523,8 +523,9 @@ func (c *Compiler) applyUsesToNode(mod, nod, use parse.Node, parentStatus schema
 	if err != nil {
 		c.error(use, err)
 	}
-	if gmod == mod {
-		// Local grouping. Search the grouping space in which the 'uses'
+	if gmod == mod || gmod == use.Root() {
+		// Local grouping (of the module, or of the submodule the 'uses'
+		// is written in). Search the grouping space in which the 'uses'
 		// is written, not just the module globals.  (That is not always
 		// the space of the node the 'uses' sits in: a 'uses' inside an
 		// augment ends up in a node copied from another module's
